@@ -5,6 +5,7 @@ mod clicheck;
 mod convert;
 mod faults;
 mod geom;
+mod jsonfmt;
 mod locks;
 mod sched;
 mod session;
@@ -38,6 +39,7 @@ fn worker(kind: &str) {
             "cli" => clicheck::worker_handle(&req),
             "convert" => convert::worker_handle(&req),
             "uvalue" => uvalue::worker_handle(&req),
+            "jsonfmt" => jsonfmt::worker_handle(&req),
             "bdlparse" => bdlparse::worker_handle(&req),
             "faults" => faults::worker_handle(&req),
             _ => serde_json::json!({"error": "unknown worker kind"}),
@@ -61,6 +63,7 @@ fn main() {
         "cli" => clicheck::main_cli(&args),
         "convert" => convert::main_convert(&args),
         "uvalue" => uvalue::main_uvalue(&args),
+        "jsonfmt" => jsonfmt::main_jsonfmt(&args),
         "bdlparse" => bdlparse::main_bdlparse(&args),
         "faults" => faults::main_faults(&args),
         "locks" => locks::main_locks(&args),
